@@ -41,7 +41,7 @@ constexpr uint64_t kInf = ~0ULL;
 
 struct Cover {
     uint64_t histories = 0, ops = 0, notifies = 0, notifiesWithCallbacks = 0, callbacks = 0, subscribes = 0, unsubscribes = 0, shrinks = 0, existsCalls = 0, depthCalls = 0;
-    uint64_t fastCases = 0, fastOps = 0, fastThrows = 0, fastStale = 0;
+    uint64_t fastCases = 0, fastOps = 0, fastThrows = 0, fastStale = 0, crowdCases = 0, maxSimultaneousDeliveries = 0;
     uint64_t linHistories = 0, linOps = 0, linNodes = 0, linInconclusive = 0, linWithOverlap = 0;
     uint64_t writesOverlappingNotify = 0, snapshotsJudged = 0, snapshotsWithConcurrentWrite = 0, missedJudged = 0, maxThreads = 0, nontrivialCases = 0;
     std::vector<uint64_t> fps;
@@ -699,6 +699,69 @@ void runFastCase(uint64_t c, rt::Rng rng) {
     if (!gCaseFailed) { persistent->unsubscribe(); thrower->unsubscribe(); delete router; }
 }
 
+
+// ------------------------------------------------------------------ a crowd of deliveries
+// More than 255 deliveries are in progress at the same time (every notify has reached its callback and stays there),
+// then a subscribe, an unsubscribe or a shrink arrives, and the deliveries end one after the other: the write must
+// not take effect before the last of them is over ("no subscribe, unsubscribe or shrink takes effect while a
+// delivery is in progress" - however many there are).
+void runCrowdCase(uint64_t c, rt::Rng rng) {
+    int n = (int) rng.range(257, 330);
+    unsigned what = (unsigned) rng.below(3);
+    static const char *names[] = {"subscribe", "unsubscribe", "shrink"};
+    char desc[160];
+    snprintf(desc, sizeof desc, "crowd case %" PRIu64 ": %d simultaneous deliveries, then %s", c, n, names[what]);
+    gDesc = desc;
+    rt::crumb("%s", desc);
+    auto *router = new ConcurrentSubjectRouter();
+    spy::unwatchAll();
+    spy::watch(router, sizeof(ConcurrentSubjectRouter));
+    spy::Delays d;
+    if (rng.chance(500)) { d.afterWake = 150; d.afterUnlock = 50; d.maxUs = 50; d.spurious = 50; }
+    spy::configure(d, rt::mix(rt::st().seed, c));
+    std::atomic<int> inside{0}, maxInside{0}, leaveUpTo{0}, ticket{0};
+    const std::vector<int> K = {0, 1};
+    USubscription crowdSub = router->subscribe(build(K), [&]() {
+        int my = ticket.fetch_add(1);
+        int now = inside.fetch_add(1) + 1;
+        int m = maxInside.load();
+        while (now > m && !maxInside.compare_exchange_weak(m, now)) {}
+        while (leaveUpTo.load(std::memory_order_acquire) <= my) usleep(100);
+        inside.fetch_sub(1);
+    });
+    USubscription victim = router->subscribe(build({2}), []() {});
+    std::vector<std::thread> th;
+    for (int i = 0; i < n; ++i) th.emplace_back([&] { router->notify(build(K)); });
+    while (inside.load() < n) usleep(200);          // (a delivery that never starts ends in the quiescence verdict)
+    std::atomic<int> stillInside{-1};
+    std::thread writer([&] {
+        if (what == 0) { USubscription s2 = router->subscribe(build({3, 0}), []() {}); stillInside.store(inside.load()); s2->unsubscribe(); }
+        else if (what == 1) { victim->unsubscribe(); stillInside.store(inside.load()); }
+        else { router->shrink(build({-1, -1})); stillInside.store(inside.load()); }
+    });
+    usleep((useconds_t) rng.range(200, 3000));
+    int step = (int) rng.range(1, 60);
+    for (int up = 0; up < n; up += step) { leaveUpTo.store(std::min(n, up + step), std::memory_order_release); usleep((useconds_t) rng.below(300)); }
+    leaveUpTo.store(n, std::memory_order_release);
+    writer.join();
+    for (auto &x : th) x.join();
+    spy::disableDelays();
+    if (stillInside.load() != 0)
+        fail("write-during-delivery", "crowd", std::string(names[what]) + "() returned while " + std::to_string(stillInside.load()) + " of " + std::to_string(n) + " deliveries were still in progress");
+    C.crowdCases++;
+    C.maxSimultaneousDeliveries = std::max<uint64_t>(C.maxSimultaneousDeliveries, (uint64_t) maxInside.load());
+    ++C.histories;
+    if (!gCaseFailed) {
+        rt::Hash h;
+        h.add(c); h.add((uint64_t) n); h.add(what);
+        C.fps.push_back(h.get());
+        ++C.nontrivialCases;
+        crowdSub->unsubscribe();
+        if (what != 1) victim->unsubscribe();
+        delete router;
+    }
+}
+
 void onDeadlock(const std::string &desc) {
     rt::violation("C11", "quiescent-deadlock", "router", gDesc + ": every thread is blocked inside the router and nothing can wake it: " + desc);
 }
@@ -714,6 +777,7 @@ int main(int argc, char **argv) {
         gCaseFailed = false;
         if (rt::optStr("mode", "stress") == "lin") runLinCase(c, rt::Rng(rt::mix(rt::st().seed, c)));
         else if (rt::optStr("mode", "stress") == "fast") runFastCase(c, rt::Rng(rt::mix(rt::st().seed, c)));
+        else if (rt::optStr("mode", "stress") == "crowd") runCrowdCase(c, rt::Rng(rt::mix(rt::st().seed, c)));
         else runCase(c, rt::Rng(rt::mix(rt::st().seed, c)));
         spy::recycle();
     }
@@ -724,7 +788,7 @@ int main(int argc, char **argv) {
                    .kv("callbacks", C.callbacks).kv("subscribes", C.subscribes).kv("unsubscribes", C.unsubscribes).kv("shrinks", C.shrinks).kv("existsCalls", C.existsCalls)
                    .kv("depthCalls", C.depthCalls).kv("writesOverlappingNotify", C.writesOverlappingNotify).kv("snapshotsJudged", C.snapshotsJudged)
                    .kv("snapshotsWithConcurrentWrite", C.snapshotsWithConcurrentWrite).kv("missedObserversJudged", C.missedJudged).kv("maxThreads", C.maxThreads)
-                   .kv("fastChurnCases", C.fastCases).kv("fastChurnOperations", C.fastOps).kv("deliveriesEndedByException", C.fastThrows).kv("staleHandleUnsubscribesRejected", C.fastStale).kv("linHistories", C.linHistories).kv("linOperations", C.linOps).kv("linSearchNodes", C.linNodes).kv("linInconclusive", C.linInconclusive).kv("linHistoriesWithOverlap", C.linWithOverlap).kv("nontrivialCases", C.nontrivialCases).kv("delaysInjected", k.afterWake.load() + k.condEntry.load() + k.beforeLock.load() + k.afterUnlock.load() + k.beforeNotify.load())
+                   .kv("fastChurnCases", C.fastCases).kv("fastChurnOperations", C.fastOps).kv("deliveriesEndedByException", C.fastThrows).kv("staleHandleUnsubscribesRejected", C.fastStale).kv("crowdCases", C.crowdCases).kv("maxSimultaneousDeliveries", C.maxSimultaneousDeliveries).kv("linHistories", C.linHistories).kv("linOperations", C.linOps).kv("linSearchNodes", C.linNodes).kv("linInconclusive", C.linInconclusive).kv("linHistoriesWithOverlap", C.linWithOverlap).kv("nontrivialCases", C.nontrivialCases).kv("delaysInjected", k.afterWake.load() + k.condEntry.load() + k.beforeLock.load() + k.afterUnlock.load() + k.beforeNotify.load())
                    .kv("lockParks", k.watchedCondWaits.load()).raw("samples", rt::jsonArray(C.samples, false)));
     return 0;
 }
